@@ -444,6 +444,9 @@ def judge(scenario: str, plan: Tuple[str, int, str], run: Run, twin: Run) -> Lis
                     kind=kind, end=str(obs['state']))
         elif obs['task'] != 'returned':
             violate('pause-play:stepping-did-not-return', repr(obs['task']), kind=kind)
+        elif obs['state'] == twin.obs['state'] == PS.FINISHED and (obs['trace'] != twin.obs['trace'] or obs['outputs'] != twin.obs['outputs']):
+            # the failed pause / play must not change what the program executes (no step lost or run twice)
+            violate('pause-play:program-disturbed', {'faulted': obs['trace'], 'twin': twin.obs['trace']}, kind=kind)
         return out
     if site == 'callback' and ENV.injected_after_termination:
         # a late callback: the process had already terminated, nothing may change any more (this is C01's business)
